@@ -136,6 +136,150 @@ theorem logger_no_deadlock (s : Sys) :
     | nil => simp [hq, qcap] at h
     | cons e q => simp [Sys.enabled, hq]
 
+/-! ### concurrent `Filter` callers -/
+
+structure FInv (n : Nat) (s : FSys) : Prop where
+  sys : SInv n s.sys
+  answers : ∀ x, (x ∈ s.delivered ∨ s.serving = some x) →
+    x.ans = some ((lastN n x.seen).filter (sel x.ask.fo x.ask.ft)) ∧ x.seen <+: s.sys.processed
+  mono : (s.delivered ++ s.serving.toList).Pairwise (fun x y => x.seen <+: y.seen)
+
+theorem finv_init (n : Nat) (hn : 1 ≤ n) : FInv n (FSys.init n) :=
+  ⟨sinv_init n hn, by intro x hx; simp [FSys.init] at hx, by simp [FSys.init]⟩
+
+private theorem sinv_filter (n : Nat) (s : Sys) (h : SInv n s) (hn : 1 ≤ n) (fo : Option Nat) (ft : Nat) :
+    s.ring.filter fo ft = some ((lastN n s.processed).filter (sel fo ft)) := by
+  have hlen := RInv_len n _ _ h.ring
+  rw [filter_eq _ fo ft (by omega), RInv_contents n _ _ h.ring]
+
+private theorem processed_grows (s : Sys) (ev : Ev) : s.processed <+: (s.step ev).processed := by
+  cases ev with
+  | enqueue e => simp [Sys.step]
+  | dequeue =>
+    unfold Sys.step
+    cases s.queue with
+    | nil => simp
+    | cons e q => simp
+
+theorem finv_step (n : Nat) (hn : 1 ≤ n) (s s' : FSys) (ev : FEv) (h : FInv n s) (hs : s.step ev = some s') :
+    FInv n s' := by
+  cases ev with
+  | log e =>
+    have key : ∀ (hen : s.sys.enabled e = true), s' = { s with sys := s.sys.step e } → FInv n s' := by
+      intro hen he; subst he
+      refine ⟨sinv_step n hn _ _ h.sys hen, ?_, h.mono⟩
+      intro x hx
+      obtain ⟨h1, h2⟩ := h.answers x hx
+      exact ⟨h1, h2.trans (processed_grows _ _)⟩
+    cases e with
+    | enqueue e =>
+      simp only [FSys.step] at hs
+      split at hs
+      · rename_i hen; exact key hen (by simpa using hs.symm)
+      · simp at hs
+    | dequeue =>
+      simp only [FSys.step] at hs
+      split at hs
+      · rename_i hen; exact key hen.2 (by simpa using hs.symm)
+      · simp at hs
+  | ask a =>
+    simp only [FSys.step] at hs
+    split at hs
+    · rename_i hnone
+      have hsv : s.serving = none := by simpa using hnone
+      have : s' = { s with serving := some { ask := a, ans := s.sys.ring.filter a.fo a.ft, seen := s.sys.processed } } := by
+        simpa using hs.symm
+      subst this
+      refine ⟨h.sys, ?_, ?_⟩
+      · intro x hx
+        rcases hx with hx | hx
+        · exact h.answers x (Or.inl hx)
+        · have : x = { ask := a, ans := s.sys.ring.filter a.fo a.ft, seen := s.sys.processed } := by
+            simpa using hx.symm
+          subst this
+          exact ⟨sinv_filter n _ h.sys hn _ _, List.prefix_refl _⟩
+      · have hm := h.mono
+        rw [hsv] at hm
+        simp only [Option.toList_none, List.append_nil] at hm
+        simp only [Option.toList_some]
+        rw [List.pairwise_append]
+        refine ⟨hm, by simp, ?_⟩
+        intro x hx y hy
+        have : y = { ask := a, ans := s.sys.ring.filter a.fo a.ft, seen := s.sys.processed } := by simpa using hy
+        subst this
+        exact (h.answers x (Or.inl hx)).2
+    · simp at hs
+  | deliver =>
+    simp only [FSys.step] at hs
+    split at hs
+    · rename_i x hx
+      have : s' = { s with serving := none, delivered := s.delivered ++ [x] } := by simpa using hs.symm
+      subst this
+      refine ⟨h.sys, ?_, ?_⟩
+      · intro y hy
+        rcases hy with hy | hy
+        · rcases List.mem_append.1 hy with hy | hy
+          · exact h.answers y (Or.inl hy)
+          · have : y = x := by simpa using hy
+            subst this; exact h.answers y (Or.inr hx)
+        · simp at hy
+      · have hm := h.mono
+        rw [hx] at hm
+        simpa using hm
+    · simp at hs
+
+theorem finv_run (n : Nat) (hn : 1 ≤ n) (evs : List FEv) (s s' : FSys) (h : FInv n s)
+    (hr : s.run evs = some s') : FInv n s' := by
+  induction evs generalizing s with
+  | nil => simp [FSys.run] at hr; subst hr; exact h
+  | cons ev evs ih =>
+    simp only [FSys.run] at hr
+    cases hst : s.step ev with
+    | none => rw [hst] at hr; simp at hr
+    | some s1 => rw [hst] at hr; exact ih s1 (finv_step n hn s s1 ev h hst) (by simpa using hr)
+
+/-- Any number of goroutines call `Filter` while any number of others call `Log`, interleaved
+    in any way: every answer a caller receives is the answer to its own question — the entries
+    matching *its* owner and type among the last `n` of a prefix of what was handed to `Log` —
+    and the answers are computed one after the other: a later answer never sees less than an
+    earlier one. -/
+theorem concurrent_filters (n : Nat) (hn : 1 ≤ n) (evs : List FEv) (s : FSys)
+    (hr : (FSys.init n).run evs = some s) :
+    (∀ x ∈ s.delivered, x.ans = some ((lastN n x.seen).filter (sel x.ask.fo x.ask.ft)) ∧
+        x.seen <+: s.sys.enqueued) ∧
+    s.delivered.Pairwise (fun x y => x.seen <+: y.seen) := by
+  have h := finv_run n hn evs _ s (finv_init n hn) hr
+  refine ⟨?_, ?_⟩
+  · intro x hx
+    obtain ⟨h1, h2⟩ := h.answers x (Or.inl hx)
+    exact ⟨h1, h2.trans ⟨s.sys.queue, h.sys.split⟩⟩
+  · exact (List.pairwise_append.1 h.mono).1
+
+/-- the answer handed over is the one computed for the question taken last: no caller receives
+    another caller's answer -/
+theorem reply_goes_to_its_asker (s s' : FSys) (h : s.step .deliver = some s') :
+    ∃ x, s.serving = some x ∧ s'.delivered = s.delivered ++ [x] ∧ s'.serving = none := by
+  simp only [FSys.step] at h
+  split at h
+  · rename_i x hx
+    have : s' = { s with serving := none, delivered := s.delivered ++ [x] } := by simpa using h.symm
+    subst this
+    exact ⟨x, hx, rfl, rfl⟩
+  · simp at h
+
+/-- no caller waits forever and no producer is shut out: a question is taken whenever the logger
+    goroutine is idle, an answer computed is handed over (its caller is waiting for nothing else),
+    and meanwhile `Log` only ever waits for a full queue -/
+theorem filter_callers_never_stuck (s : FSys) :
+    (s.serving = none → ∀ a, (s.step (.ask a)).isSome = true) ∧
+    (s.serving ≠ none → (s.step .deliver).isSome = true) := by
+  refine ⟨?_, ?_⟩
+  · intro h a; simp [FSys.step, h]
+  · intro h
+    cases hs : s.serving with
+    | none => exact absurd hs h
+    | some x => simp [FSys.step, hs]
+
 /-! ### non-vacuity -/
 
 def ex (i : Nat) : Entry := { id := i, owner := some (i % 2), typ := 1 + i % 3 }
@@ -144,5 +288,9 @@ example : (logged 3 [ex 0, ex 1, ex 2, ex 3, ex 4]).contents = [ex 2, ex 3, ex 4
 example : (logged 3 [ex 0, ex 1, ex 2, ex 3, ex 4]).filter (some 0) 0 = some [ex 2, ex 4] := by decide
 example : ((Sys.init 2).run [.enqueue (ex 0), .enqueue (ex 1), .dequeue, .enqueue (ex 2)]).isSome = true := by
   decide
+
+example : (((FSys.init 2).run [.log (.enqueue (ex 0)), .log .dequeue, .ask ⟨7, some 0, 0⟩, .log (.enqueue (ex 1)),
+    .deliver, .log .dequeue, .ask ⟨8, none, 0⟩, .deliver]).map (fun s => s.delivered.map (fun x => (x.ask.caller, x.ans)))) =
+    some [(7, some [ex 0]), (8, some [ex 0, ex 1])] := by decide
 
 end G9.C20
